@@ -175,4 +175,130 @@ struct ElemName<int> {
   static constexpr bool tracked = false;
 };
 
+
+// ------------------------------------------------------------------ other element sizes / alignments
+// TrackedX<E, A> / PodX<E, A>: like Tracked / Pod with E extra redundancy words (sizeof = 8 + 4*E rounded up to
+// the alignment A): 12-, 20- and 24-byte elements whose size does not divide a block header or a chunk, and
+// elements with alignment 8. Every word is derived from the value, so a partial overwrite is visible (CORRUPT).
+inline int padWord(int v, unsigned i) { return v ^ (int)(0x5a5a0000u + 0x101u * (i + 1)); }
+
+template <unsigned E, unsigned A = 4>
+struct alignas(A) TrackedX {
+  int v;
+  int chk;
+  int pad[E];
+
+  TrackedX() { fill(0); g_reg.construct(this, "default-ctor"); }
+  TrackedX(int x) { fill(x); g_reg.construct(this, "value-ctor"); }
+  TrackedX(const TrackedX& o) {
+    fill(o.get("copy-ctor source"));
+    g_reg.construct(this, "copy-ctor");
+  }
+  TrackedX(TrackedX&& o) noexcept {
+    fill(o.get("move-ctor source"));
+    g_reg.construct(this, "move-ctor");
+    ++g_reg.moves;
+    if (g_reg.isLive(&o))
+      o.fill(MOVED_FROM);
+  }
+  TrackedX& operator=(const TrackedX& o) {
+    int x = o.get("copy-assign source");
+    if (g_reg.use(this, "copy-assign target"))
+      fill(x);
+    return *this;
+  }
+  TrackedX& operator=(TrackedX&& o) noexcept {
+    if (this == &o)
+      return *this;
+    int x = o.get("move-assign source");
+    if (g_reg.use(this, "move-assign target"))
+      fill(x);
+    ++g_reg.moves;
+    if (g_reg.isLive(&o))
+      o.fill(MOVED_FROM);
+    return *this;
+  }
+  ~TrackedX() {
+    if (g_reg.destroy(this))
+      fill(DEAD);
+  }
+  void fill(int x) {
+    v   = x;
+    chk = ~x;
+    for (unsigned i = 0; i < E; ++i)
+      pad[i] = padWord(x, i);
+  }
+  int get(const char* how = "read") const {
+    if (!g_reg.use(this, how))
+      return NON_LIVE;
+    if (chk != ~v)
+      return CORRUPT;
+    for (unsigned i = 0; i < E; ++i)
+      if (pad[i] != padWord(v, i))
+        return CORRUPT;
+    return v;
+  }
+};
+
+template <unsigned E, unsigned A = 4>
+struct alignas(A) PodX {
+  int v;
+  int chk;
+  int pad[E];
+  PodX() = default;
+  PodX(int x) : v(x), chk(~x) {
+    for (unsigned i = 0; i < E; ++i)
+      pad[i] = padWord(x, i);
+  }
+  int get(const char* = "") const {
+    if (chk != ~v)
+      return CORRUPT;
+    for (unsigned i = 0; i < E; ++i)
+      if (pad[i] != padWord(v, i))
+        return CORRUPT;
+    return v;
+  }
+};
+
+#define C14_CMP(TYPE)                                                                                                 \
+  template <unsigned E, unsigned A>                                                                                   \
+  inline bool operator==(const TYPE<E, A>& a, const TYPE<E, A>& b) {                                                  \
+    return a.get("==") == b.get("==");                                                                                \
+  }                                                                                                                   \
+  template <unsigned E, unsigned A>                                                                                   \
+  inline bool operator!=(const TYPE<E, A>& a, const TYPE<E, A>& b) {                                                  \
+    return !(a == b);                                                                                                 \
+  }                                                                                                                   \
+  template <unsigned E, unsigned A>                                                                                   \
+  inline bool operator<(const TYPE<E, A>& a, const TYPE<E, A>& b) {                                                   \
+    return a.get("<") < b.get("<");                                                                                   \
+  }                                                                                                                   \
+  template <unsigned E, unsigned A>                                                                                   \
+  inline int val(const TYPE<E, A>& x) {                                                                               \
+    return x.get();                                                                                                   \
+  }
+C14_CMP(TrackedX)
+C14_CMP(PodX)
+#undef C14_CMP
+
+typedef TrackedX<1> Tracked12;    // {int,int,int}
+typedef PodX<1> Pod12;
+typedef TrackedX<3> Tracked20;
+typedef PodX<3> Pod20;
+typedef TrackedX<4, 8> Tracked24; // size and alignment of three pointers
+typedef PodX<4, 8> Pod24;
+static_assert(sizeof(Tracked12) == 12 && sizeof(Pod12) == 12 && sizeof(Tracked20) == 20 && sizeof(Pod20) == 20 &&
+                  sizeof(Tracked24) == 24 && sizeof(Pod24) == 24 && alignof(Tracked24) == 8,
+              "element sizes");
+static_assert(std::is_trivially_copyable<Pod12>::value && std::is_trivially_copyable<Pod24>::value, "");
+
+template <unsigned E, unsigned A>
+struct ElemName<TrackedX<E, A>> {
+  static constexpr bool tracked = true;
+};
+template <unsigned E, unsigned A>
+struct ElemName<PodX<E, A>> {
+  static constexpr bool tracked = false;
+};
+
 } // namespace c14
